@@ -59,21 +59,6 @@ fn eval(b: &Building, c: &Case, k: f32) -> Result<EnergyPerformance, Failure> {
     eval_area(b, c, k, c.area)
 }
 
-fn strip_digits(s: String) -> String {
-    s.chars().filter(|c| !c.is_ascii_digit() && *c != '-').collect()
-}
-
-fn class_of(msg: &str) -> &'static str {
-    if msg.contains("desconocida") {
-        "no_demand"
-    } else if msg.contains("nula") {
-        "zero_demand"
-    } else if msg.contains("biomasa") {
-        "biomass_without_output"
-    } else {
-        "other"
-    }
-}
 
 impl Prop for C15 {
     type Case = Case;
@@ -81,7 +66,7 @@ impl Prop for C15 {
     fn rule() -> String {
         "cases = DHW grammar: 1-4 suppliers among {direct electric, heat pump (el + ambient, optionally low-SCOP excluded), solar thermal, RED1/RED2 with user factors, fossil boiler with efficiency, BIOMASA / BIOMASADENSIFICADA boiler with or without SALIDA}, \
          per-step values, demand consistent with the useful heat supplied (or absent / zero: non-computable classes), PV of any size shared with another service's electricity, AUX on the DHW system, other services, nEPB uses, 1-12 steps, regulatory factors with user RED1/RED2, 30 %: a cogeneration unit with 1-3 fuels (nearby and distant, own profiles, steps without electricity) whose electricity is used after the PV, plus an optional second unit added to the base building (invariances only); \
-         oracle = closed-form fraction (f64) vs fraccion_renovable_acs_nrb within 1e-4, value in [0,1], error class parity, misc map content, and invariance under added nEPB lines, added non-electric lines of other services, another k_exp, another reference area and scaling by 2^k; \
+         oracle = closed-form fraction (f64) vs fraccion_renovable_acs_nrb within 1e-4, value in [0,1], an error (any) exactly in the non-computable classes, misc map content, and invariance under added nEPB lines, added non-electric lines of other services, another k_exp, another reference area and scaling by 2^k; \
          non-trivial = >= 2 suppliers and (PV shared with another service, or AUX, or biomass)"
             .into()
     }
@@ -141,8 +126,9 @@ impl Prop for C15 {
                     ensure!(*v as f64 >= -tl && *v as f64 <= 1.0 + tl, "in_unit_interval", "fraction {} outside [0, 1]", v);
                     ctx.label("value");
                 }
-                (Err(e), Err(class)) => {
-                    ensure!(class_of(&e.to_string()) == *class, "error_class", "error `{}` but the expected non-computable class is {}", e, class);
+                (Err(_), Err(class)) => {
+                    // "it reports an error instead of a number": which error, and in which words, the statement
+                    // leaves open (a reworded or re-ordered message is not a violation)
                     ctx.label(format!("err:{}", class));
                 }
                 (Ok(v), Err(class)) => fail!("error_expected", "a fraction ({}) is reported in the non-computable class {}", v, class),
@@ -210,7 +196,7 @@ impl Prop for C15 {
                     let same = (a.is_nan() && bb.is_nan()) || ((a - bb).abs() as f64) <= tl;
                     ensure!(same, "invariance", "{}: fraction changes from {} to {}", what, a, bb);
                 }
-                (Err(a), Err(bb)) => ensure!(strip_digits(a.to_string()) == strip_digits(bb.to_string()), "invariance", "{}: error changes from `{}` to `{}`", what, a, bb),
+                (Err(_), Err(_)) => {}
                 (Ok(a), Err(bb)) => fail!("invariance", "{}: fraction {} becomes error `{}`", what, a, bb),
                 (Err(a), Ok(bb)) => fail!("invariance", "{}: error `{}` becomes fraction {}", what, a, bb),
             }
